@@ -23,9 +23,9 @@ import (
 
 func cases(tier string) int {
 	if tier == "thorough" {
-		return 5000
+		return 8000
 	}
-	return 250
+	return 600
 }
 
 func cliEvery(tier string) int {
